@@ -1,4 +1,4 @@
-use std::{collections::HashMap, rc::Rc};
+use std::rc::Rc;
 
 use pest::iterators::Pair;
 use serde::{Deserialize, Serialize};
@@ -169,7 +169,7 @@ impl IntoLower for WithdrawalBlock {
 
         Ok(ir::AdHocDirective {
             name: "withdrawal".to_string(),
-            data: std::collections::HashMap::from([
+            data: std::collections::BTreeMap::from([
                 ("credential".to_string(), credential),
                 ("amount".to_string(), amount),
                 ("redeemer".to_string(), redeemer),
@@ -226,7 +226,7 @@ impl IntoLower for VoteDelegationCertificate {
     ) -> Result<Self::Output, crate::lowering::Error> {
         Ok(ir::AdHocDirective {
             name: "vote_delegation_certificate".to_string(),
-            data: HashMap::from([
+            data: std::collections::BTreeMap::from([
                 ("drep".to_string(), self.drep.into_lower(ctx)?),
                 ("stake".to_string(), self.stake.into_lower(ctx)?),
             ]),
@@ -555,7 +555,7 @@ impl IntoLower for TreasuryDonationBlock {
 
         Ok(ir::AdHocDirective {
             name: "treasury_donation".to_string(),
-            data: std::collections::HashMap::from([("coin".to_string(), coin)]),
+            data: std::collections::BTreeMap::from([("coin".to_string(), coin)]),
         })
     }
 }
